@@ -75,14 +75,14 @@ def run(tier):
     for i, s in enumerate(used):
         for j, order in enumerate(("fifo", "lifo", "inter")):
             plans.append({"kind": "work", "blocks": [classes[c - 1] for c in s], "free": order, "reps": reps,
-                          "base": reps // 2, "os": "bad"[(i + j) % 3], "src": "tlc-workload"})
+                          "base": reps // 2, "os": "bad"[(i + j) % 3], "walk": True, "src": "tlc-workload"})
     n_tlc = len(plans)
     rng = A.rng_for(chk, "c04")
     # long repetition of a sample (N = 200), biased towards workloads that make the heap trim
     big = [i for i in range(n_tlc) if classes[-1] in plans[i]["blocks"]]
     for i in rng.sample(big, 24 if quick else 200) + rng.sample(range(n_tlc), 6 if quick else 100):
         p = dict(plans[i])
-        p.update({"reps": 200, "base": 100, "src": "tlc-workload-long", "os": rng.choice("bdd"), "rand_place": rng.random() < 0.3,
+        p.update({"reps": 200, "base": 100, "walk": False, "src": "tlc-workload-long", "os": rng.choice("bdd"), "rand_place": rng.random() < 0.3,
                   "seed": rng.randrange(1, 1 << 40)})
         plans.append(p)
     # boundary-size workloads (random multisets from the C03 alphabet), random placement
@@ -116,9 +116,9 @@ def run(tier):
                       "reps": 200, "base": 100, "os": "b", "rand_place": True, "classes": small, "watchdog": 900,
                       "src": "churn-1e6"})
 
-    # debug build (assertions on) for the TLC workloads, release build for the rest (quick) /
-    # for everything (thorough); processed in chunks so that memory stays bounded
-    jobs = [("debug", bin_dbg, plans[:n_tlc]), ("release", bin_rel, plans[n_tlc:] if quick else plans)]
+    # debug build (assertions on) for the TLC workloads, release build for the rest;
+    # processed in chunks so that memory stays bounded
+    jobs = [("debug", bin_dbg, plans[:n_tlc]), ("release", bin_rel, plans[n_tlc:])]
     CH = 1200
     work = [(build, bindir, pl[i:i + CH], i) for build, bindir, pl in jobs for i in range(0, len(pl), CH)]
     t0 = time.time()
